@@ -3,6 +3,8 @@ package main
 import (
 	"fmt"
 	"go/ast"
+	"go/importer"
+	"go/types"
 	"go/parser"
 	"go/printer"
 	"go/token"
@@ -293,4 +295,256 @@ func sitesC14(fset *token.FileSet, files map[string]*ast.File) (string, error) {
 	sort.Strings(rd)
 	return "From V Require Import Base.Bytes.\nDefinition ignore_list : list bytes := " + coqList(ignore, coqBytes) +
 		".\nDefinition read_directives : list bytes := " + coqList(rd, coqBytes) + ".\n", nil
+}
+
+// ---------------- typed loading (go/types with the source importer; offline) ----------------
+func loadTyped(dir string) (*token.FileSet, []*ast.File, *types.Info, error) {
+	fset, files, err := parseRepoPkg(dir)
+	if err != nil {
+		return nil, nil, nil, err
+	}
+	var fl []*ast.File
+	for _, n := range sortedFileNames(files) {
+		fl = append(fl, files[n])
+	}
+	info := &types.Info{Types: map[ast.Expr]types.TypeAndValue{}, Uses: map[*ast.Ident]types.Object{}, Defs: map[*ast.Ident]types.Object{}}
+	oldwd, _ := os.Getwd()
+	_ = os.Chdir(dir)
+	defer func() { _ = os.Chdir(oldwd) }()
+	conf := types.Config{Importer: importer.ForCompiler(fset, "source", nil), Error: func(error) {}}
+	_, _ = conf.Check("pkg", fset, fl, info)
+	return fset, fl, info, nil
+}
+
+// ---------------- C10: every `range` over a map, classified by what the loop body does ----------------
+func init() { siteTables["C10"] = sitesC10 }
+
+func sitesC10(_ *token.FileSet, _ map[string]*ast.File) (string, error) {
+	var rows []string
+	for _, dir := range []string{repoDir, repoDir + "/internal/helpers", repoDir + "/internal/reflect", repoDir + "/internal/parser"} {
+		fset, files, info, err := loadTyped(dir)
+		if err != nil {
+			return "", err
+		}
+		for _, f := range files {
+			fname := filepath.Base(fset.Position(f.Pos()).Filename)
+			for _, d := range f.Decls {
+				fd, ok := d.(*ast.FuncDecl)
+				if !ok || fd.Body == nil {
+					continue
+				}
+				var visit func(n ast.Node, following []ast.Stmt)
+				walkBlock := func(list []ast.Stmt) {
+					for i, st := range list {
+						visit(st, list[i+1:])
+					}
+				}
+				visit = func(n ast.Node, following []ast.Stmt) {
+					switch x := n.(type) {
+					case *ast.RangeStmt:
+						if tv, ok := info.Types[x.X]; ok {
+							if _, isMap := tv.Type.Underlying().(*types.Map); isMap {
+								rows = append(rows, fmt.Sprintf("  (%s, %s, %s, %s)", coqBytes(fname), coqBytes(fd.Name.Name), coqBytes(nodeStr(fset, x.X)), classifyRange(fset, x, following)))
+							}
+						}
+						walkBlock(x.Body.List)
+					case *ast.BlockStmt:
+						walkBlock(x.List)
+					case *ast.IfStmt:
+						walkBlock(x.Body.List)
+						if x.Else != nil {
+							visit(x.Else, nil)
+						}
+					case *ast.ForStmt:
+						walkBlock(x.Body.List)
+					case *ast.SwitchStmt:
+						for _, c := range x.Body.List {
+							walkBlock(c.(*ast.CaseClause).Body)
+						}
+					case *ast.TypeSwitchStmt:
+						for _, c := range x.Body.List {
+							walkBlock(c.(*ast.CaseClause).Body)
+						}
+					case *ast.ExprStmt, *ast.AssignStmt, *ast.ReturnStmt, *ast.DeferStmt, *ast.GoStmt:
+						ast.Inspect(n, func(y ast.Node) bool {
+							if fl, ok := y.(*ast.FuncLit); ok {
+								walkBlock(fl.Body.List)
+								return false
+							}
+							return true
+						})
+					}
+				}
+				walkBlock(fd.Body.List)
+			}
+		}
+	}
+	sort.Strings(rows)
+	// reflection-based map iteration (no range statement): MapKeys / MapRange call sites, with whether a sort follows in the function
+	var refl []string
+	for _, dir := range []string{repoDir, repoDir + "/internal/helpers", repoDir + "/internal/reflect"} {
+		fset, files, err := parseRepoPkg(dir)
+		if err != nil {
+			return "", err
+		}
+		for _, fn := range sortedFileNames(files) {
+			for _, d := range files[fn].Decls {
+				fd, ok := d.(*ast.FuncDecl)
+				if !ok || fd.Body == nil {
+					continue
+				}
+				body := nodeStrFull(fset, fd.Body)
+				ast.Inspect(fd.Body, func(x ast.Node) bool {
+					call, ok := x.(*ast.CallExpr)
+					if !ok {
+						return true
+					}
+					if sel, ok := call.Fun.(*ast.SelectorExpr); ok && (sel.Sel.Name == "MapKeys" || sel.Sel.Name == "MapRange") {
+						refl = append(refl, fmt.Sprintf("  (%s, %s, %s, %s)", coqBytes(fn), coqBytes(fd.Name.Name), coqBytes(sel.Sel.Name), coqBool(strings.Contains(body, "sort."))))
+					}
+					return true
+				})
+			}
+		}
+	}
+	sort.Strings(refl)
+	// clock / randomness reachable from the package (an output must not depend on them)
+	var nondet []string
+	for _, dir := range []string{repoDir, repoDir + "/internal/helpers", repoDir + "/internal/reflect", repoDir + "/internal/parser"} {
+		fset, files, err := parseRepoPkg(dir)
+		if err != nil {
+			return "", err
+		}
+		for _, fn := range sortedFileNames(files) {
+			ast.Inspect(files[fn], func(x ast.Node) bool {
+				if sel, ok := x.(*ast.SelectorExpr); ok {
+					if id, ok := sel.X.(*ast.Ident); ok && ((id.Name == "time" && sel.Sel.Name == "Now") || id.Name == "rand" || id.Name == "ulid") {
+						nondet = append(nondet, fmt.Sprintf("  (%s, %s)", coqBytes(fn), coqBytes(nodeStr(fset, sel))))
+					}
+				}
+				return true
+			})
+		}
+	}
+	sort.Strings(nondet)
+	nd := "Definition nondet_calls : list (bytes * bytes) := [\n" + strings.Join(nondet, ";\n") + "\n].\n"
+	return "From V Require Import Base.Bytes Model.MapOrder.\n" + nd + "Definition map_ranges : list range_site := [\n" + strings.Join(rows, ";\n") + "\n].\n" +
+		"Definition reflect_iters : list (bytes * bytes * bytes * bool) := [\n" + strings.Join(refl, ";\n") + "\n].\n", nil
+}
+
+func nodeStrFull(fset *token.FileSet, n ast.Node) string {
+	var sb strings.Builder
+	_ = printer.Fprint(&sb, fset, n)
+	return sb.String()
+}
+
+// classifyRange: RMerge  - the body only writes map[key-derived] = ..., deletes keys, or calls Set-like methods keyed by the
+//                          loop key (writes to distinct keys commute);
+//                RSorted - the body appends to a slice that is sorted right after the loop;
+//                ROther  - anything else (the result may depend on the iteration order).
+func classifyRange(fset *token.FileSet, r *ast.RangeStmt, following []ast.Stmt) string {
+	keyName := ""
+	if id, ok := r.Key.(*ast.Ident); ok {
+		keyName = id.Name
+	}
+	valName := ""
+	if id, ok := r.Value.(*ast.Ident); ok {
+		valName = id.Name
+	}
+	appended := ""
+	var okStmt func(s ast.Stmt) bool
+	okStmt = func(s ast.Stmt) bool {
+		switch x := s.(type) {
+		case *ast.DeclStmt: // local temporaries
+			return true
+		case *ast.AssignStmt:
+			perEntry := valName != "" && len(x.Lhs) > 0
+			for _, l := range x.Lhs { // writes to fields of the entry's own value commute across entries
+				sel, ok := l.(*ast.SelectorExpr)
+				if !ok {
+					perEntry = false
+					break
+				}
+				if id, ok := sel.X.(*ast.Ident); !ok || id.Name != valName {
+					perEntry = false
+				}
+			}
+			if perEntry {
+				return true
+			}
+			if len(x.Lhs) == 1 && len(x.Rhs) == 1 {
+				if ix, ok := x.Lhs[0].(*ast.IndexExpr); ok { // m[k] = v
+					_ = ix
+					return true
+				}
+				if call, ok := x.Rhs[0].(*ast.CallExpr); ok {
+					if fn, ok := call.Fun.(*ast.Ident); ok && fn.Name == "append" && len(call.Args) >= 1 {
+						appended = nodeStr(fset, call.Args[0])
+						return nodeStr(fset, x.Lhs[0]) == appended
+					}
+				}
+				if x.Tok == token.DEFINE { // local temporaries
+					return true
+				}
+			}
+			return false
+		case *ast.ExprStmt:
+			call, ok := x.X.(*ast.CallExpr)
+			if !ok {
+				return false
+			}
+			if fn, ok := call.Fun.(*ast.Ident); ok && fn.Name == "delete" {
+				return true
+			}
+			if sel, ok := call.Fun.(*ast.SelectorExpr); ok {
+				switch sel.Sel.Name {
+				case "Set", "SetSlot", "Assign", "RegisterFunc": // keyed writes
+					if len(call.Args) >= 1 {
+						if id, ok := call.Args[0].(*ast.Ident); ok && id.Name == keyName {
+							return true
+						}
+					}
+				}
+			}
+			return false
+		case *ast.IfStmt:
+			for _, b := range x.Body.List {
+				if !okStmt(b) {
+					return false
+				}
+			}
+			if x.Else != nil {
+				if blk, ok := x.Else.(*ast.BlockStmt); ok {
+					for _, b := range blk.List {
+						if !okStmt(b) {
+							return false
+						}
+					}
+				} else {
+					return false
+				}
+			}
+			return true
+		case *ast.BranchStmt:
+			return x.Tok == token.CONTINUE
+		}
+		return false
+	}
+	for _, s := range r.Body.List {
+		if !okStmt(s) {
+			return "(ROther " + coqBytes(nodeStr(fset, s)) + ")"
+		}
+	}
+	if appended == "" {
+		return "RMerge"
+	}
+	// an appending loop is fine only when the slice is sorted before it is used
+	for _, s := range following {
+		str := nodeStr(fset, s)
+		if strings.HasPrefix(str, "sort.") && strings.Contains(str, appended) {
+			return "RSorted"
+		}
+		break
+	}
+	return "(ROther " + coqBytes("append to "+appended+" without a sort") + ")"
 }
